@@ -16,6 +16,11 @@ use std::collections::BTreeMap;
 type Key = (String, usize, usize, usize, String, String, String);
 
 pub fn generate(r: &mut Rng, tier: Tier) -> Scenario {
+    // one run in sixteen drives the tail variant; decided on a copy of the generator so that all
+    // other runs draw exactly what they drew before the variant existed
+    if r.clone().next_u64() % 16 == 5 {
+        return generate_tail(r, tier);
+    }
     let t2 = r.chance(1, 8);
     let multiline = r.chance(1, 4);
     let (mut world, g, c, _) = super::draw_world(r, |g, c| {
@@ -438,6 +443,9 @@ fn first_line_involved(k: &Key, pasted: &[PastedLine]) -> bool {
 }
 
 pub fn check(scn: &Scenario, stats: &mut Stats) -> Vec<Violation> {
+    if scn.variant == "t1-tail" {
+        return check_tail(scn, stats);
+    }
     if scn.t2.is_some() {
         return check_t2(scn, stats);
     }
@@ -952,6 +960,196 @@ fn check_t2(scn: &Scenario, stats: &mut Stats) -> Vec<Violation> {
     }
     if stats.samples.len() < 2 {
         stats.samples.push(serde_json::json!({"variant": "t2", "files": scn.world.files.keys().collect::<Vec<_>>(), "plan": spec.plan, "fs_calls": sj.log.lines().take(10).collect::<Vec<_>>(), "items": split_items.len()}));
+    }
+    out
+}
+
+
+// ---------------------------------------------------------------------------------------------
+// Tail variant: further tokens behind the path on the directive's own line, and included files
+// that end without a newline, so that the included text stands in the *middle* of a line of the
+// including file. The line-based cutter and line map above cannot express this; the variant has
+// its own reference model (character-level textual inclusion) and a coarser comparison.
+
+/// last lines of an included file (written without newline at the end); some are faulty in a way
+/// that makes the parser skip the rest of the line, some are complete statements
+const TAIL_LAST: &[&str] = &[
+    "    frobnicate t0, t1",
+    "    .bogusdir 3",
+    "    addi t0, t0, t1, 5",
+    "    li t0, ,",
+    "    add t1",
+    "    addi t0, t0, 1",
+    "    li a0, 1",
+    "    mv t2, t0",
+    "    lw t1, 0(",
+];
+/// what follows the closing quote of the directive on the same line
+const TAIL_AFTER: &[&str] = &["li t3, 9", "addi t4, t4, 1", "frob", "li a7, 10", "t5, 7", ", 5", "mv t6, t3", "", "li a0, 2 li a1, 3"];
+const TAIL_BODY: &[&str] = &["    li t0, 1", "    addi t1, t0, 2", "    mv a0, t1", "    li a1, 4", "    add a2, a0, a1", "    bogus t0", "    li t2, 7", ""];
+
+fn generate_tail(r: &mut Rng, tier: Tier) -> Scenario {
+    let depth = 1 + r.usize(3);
+    let mut world = World { base: "base.s".into(), ..World::default() };
+    let name = |k: usize| if k == 0 { "base.s".to_string() } else { format!("t{k}.s") };
+    for k in 0..=depth {
+        let mut lines: Vec<String> = Vec::new();
+        if k == 0 {
+            lines.push("main:".into());
+        }
+        for _ in 0..r.usize(4) {
+            lines.push((*r.pick(TAIL_BODY)).to_string());
+        }
+        let mut text;
+        if k < depth {
+            let after = *r.pick(TAIL_AFTER);
+            let indent = if r.chance(1, 2) { "    " } else { "" };
+            lines.push(format!("{indent}.include \"{}\"{}{}", name(k + 1), if after.is_empty() { "" } else { " " }, after));
+            if k == 0 {
+                for _ in 0..r.usize(3) {
+                    lines.push((*r.pick(TAIL_BODY)).to_string());
+                }
+                lines.push("    li a7, 10".into());
+                lines.push("    ecall".into());
+                text = lines.join("\n");
+                text.push('\n');
+            } else {
+                // the directive line may itself be the unterminated last line of its file
+                let more = r.chance(1, 2);
+                if more {
+                    for _ in 0..1 + r.usize(2) {
+                        lines.push((*r.pick(TAIL_BODY)).to_string());
+                    }
+                }
+                text = lines.join("\n");
+                if r.chance(1, 3) {
+                    text.push('\n');
+                }
+            }
+        } else {
+            lines.push((*r.pick(TAIL_LAST)).to_string());
+            text = lines.join("\n");
+            if r.chance(1, 5) {
+                text.push('\n');
+            }
+        }
+        world.files.insert(name(k), text);
+    }
+    let k = if tier == Tier::Quick { 2 } else { 3 };
+    let entropy: Vec<u64> = (0..k).map(|_| r.next_u64() >> 11).collect();
+    Scenario {
+        property: "C15".into(),
+        variant: "t1-tail".into(),
+        world,
+        personality: Personality::Strict,
+        reader_faults: vec![],
+        entropy,
+        history: vec![],
+        t2: None,
+        content_faults: vec![],
+        expected_levels: std::collections::BTreeMap::new(),
+        note: format!("shape=tail depth={depth}"),
+    }
+}
+
+/// Where an include directive stands in a line: (start of `.include`, end behind the closing quote, path).
+fn find_directive(line: &str) -> Option<(usize, usize, &str)> {
+    let lead = line.len() - line.trim_start().len();
+    let t = &line[lead..];
+    let rest = t.strip_prefix(".include")?;
+    let ws = rest.len() - rest.trim_start().len();
+    if ws == 0 {
+        return None;
+    }
+    let q = &rest[ws..];
+    let q = q.strip_prefix('"')?;
+    let end = q.find('"')?;
+    let stop = lead + ".include".len() + ws + 1 + end + 1;
+    Some((lead, stop, &q[..end]))
+}
+
+/// Character-level textual inclusion: the directive (from `.include` to the closing quote) is
+/// replaced by the text of the file, whatever stands behind it on the line stays where it is.
+/// None if a file is missing or the nesting does not end (the variant generates neither).
+fn inline_paste(world: &World, path: &str, depth: usize) -> Option<String> {
+    if depth > 8 {
+        return None;
+    }
+    let text = world.files.get(path)?;
+    let mut out = String::new();
+    for piece in text.split_inclusive('\n') {
+        let (line, nl) = match piece.strip_suffix('\n') {
+            Some(l) => (l, "\n"),
+            None => (piece, ""),
+        };
+        match find_directive(line) {
+            Some((a, b, rel)) => {
+                let target = resolve(dir_of(path), rel)?;
+                out.push_str(&line[..a]);
+                out.push_str(&inline_paste(world, &target, depth + 1)?);
+                out.push_str(&line[b..]);
+            }
+            None => out.push_str(line),
+        }
+        out.push_str(nl);
+    }
+    Some(out)
+}
+
+fn check_tail(scn: &Scenario, stats: &mut Stats) -> Vec<Violation> {
+    let mut out = Vec::new();
+    stats.worlds.insert(scn.world.content_hash());
+    let Some(&e0) = scn.entropy.first() else { return out };
+    let mut feats = BTreeMap::new();
+    feats.insert("variant".into(), "t1-tail".to_string());
+    let Some(ptext) = inline_paste(&scn.world, &scn.world.base, 0) else {
+        stats.inc("tail:outside-the-model");
+        return out;
+    };
+    let split = lint::run(&LintSpec::new(&scn.world, e0, Api::Coded));
+    stats.inc("t1_incarnations");
+    stats.inc("tail:runs");
+    if let Some(p) = &split.panic {
+        out.push(viol("terminates", format!("panic:{}", p.location), format!("split run panicked: {} at {}", p.message, p.location), &feats));
+        return out;
+    }
+    if split.import_log.iter().skip(1).any(|r| !r.ok) || split.imports != scn.world.files.len() {
+        // a minimised world may have lost a file or a directive: no verdict
+        stats.inc("tail:outside-the-model");
+        return out;
+    }
+    let reference = lint::run(&LintSpec::new(&World::single(&ptext), scn.entropy.get(1).copied().unwrap_or(e0), Api::Coded));
+    stats.inc("t1_incarnations");
+    if reference.panic.is_some() {
+        stats.inc("skipped_reference_crash(C06's subject)");
+        return out;
+    }
+    stats.nontrivial_worlds.insert(scn.world.content_hash());
+    if scn.world.files.iter().any(|(p, t)| *p != scn.world.base && !t.ends_with('\n')) {
+        stats.inc("probe:tail:included-file-ends-inside-a-line");
+    }
+    if !reference.diags.is_empty() {
+        stats.inc("probe:tail:reference-has-diagnostics");
+    }
+    // the same token stream must give the same findings: compared by severity, title and text
+    // (positions on a line that is shared by several files have no line-based counterpart)
+    let bag = |ds: &[NDiag]| {
+        let mut v: Vec<(String, String, String)> = ds.iter().map(|d| (d.level.clone(), d.title.clone(), d.description.clone())).collect();
+        v.sort();
+        v
+    };
+    let (want, got) = (bag(&reference.diags), bag(&split.diags));
+    if want != got {
+        let only = |a: &[(String, String, String)], b: &[(String, String, String)]| {
+            let mut b = b.to_vec();
+            a.iter().filter(|x| if let Some(p) = b.iter().position(|y| y == *x) { b.remove(p); false } else { true }).map(|x| format!("{} `{}`", x.0, x.1)).collect::<Vec<_>>().join("; ")
+        };
+        out.push(viol(
+            "tail:differs-from-pasted",
+            "tail:differs-from-pasted".into(),
+            format!("tokens behind a directive / included text inside a line: only in the pasted file [{}], only in the split program [{}]; pasted text: {:?}", only(&want, &got), only(&got, &want), ptext),
+            &feats,
+        ));
     }
     out
 }
